@@ -54,58 +54,87 @@ def run_cvc5(smt2, timeout_s, opts):
     return 'unknown', out[:300]
 
 
+def _z3model_from_cvc5(assertions, out):
+    vals = dict(re.findall(r'\(define-fun\s+(\S+)\s+\(\)\s+\(_ BitVec \d+\)\s+(#[xb][0-9a-fA-F]+)\)', out))
+    s2 = z3.Solver(); s2.set('timeout', 20000); s2.add(*assertions)
+    consts = {}
+    seen = set(); todo = list(assertions)
+    while todo:
+        x = todo.pop()
+        if x.get_id() in seen: continue
+        seen.add(x.get_id())
+        if z3.is_const(x) and x.decl().kind() == z3.Z3_OP_UNINTERPRETED and z3.is_bv(x): consts[str(x)] = x
+        todo.extend(x.children())
+    for nm, v in vals.items():
+        nm = nm.strip('|')
+        if nm in consts:
+            c = consts[nm]
+            iv = int(v[2:], 16) if v[1] == 'x' else int(v[2:], 2)
+            s2.add(c == z3.BitVecVal(iv, c.size()))
+    return s2.model() if s2.check() == z3.sat else None
+
+
 def solve(assertions, timeout_s=60, z3_first_s=None, tactic=None):
-    """returns (status str, z3 model or None, info dict)"""
+    """returns (status str, z3 model or None, info dict). For pure bit-vector queries cvc5 (int-blasting) runs as a
+    subprocess CONCURRENTLY with z3; the first verdict wins (a cvc5 `sat` only after z3 confirms the model)."""
     t0 = time.time()
     info = {'solver': 'z3'}
     feats = logic_features(assertions)
     use_cvc5 = feats['bv'] and not (feats['fp'] or feats['real'] or feats['int']) and os.path.exists(CVC5)
-    first = z3_first_s if z3_first_s is not None else (min(timeout_s, 2) if use_cvc5 else timeout_s)
     sol = z3.Solver() if tactic is None else z3.Tactic(tactic).solver()
-    sol.set('timeout', int(first * 1000)); sol.add(*assertions)
+    sol.add(*assertions)
+    # quick attempt with z3 alone
+    quick = min(timeout_s, 1.0 if use_cvc5 else timeout_s) if z3_first_s is None else z3_first_s
+    sol.set('timeout', int(quick * 1000))
     r = sol.check(); STATS['z3'] += 1
-    if r != z3.unknown:
-        return str(r), (sol.model() if r == z3.sat else None), info
-    info['z3_first'] = sol.reason_unknown()
-    if use_cvc5:
-        left = max(5.0, timeout_s - (time.time() - t0))
-        s0 = z3.Solver(); s0.add(*assertions)    # fresh solver: sexpr() of a solver that already ran contains internal state
-        smt2 = '(set-logic %s)\n(set-option :produce-models true)\n' % ('QF_ABV' if feats['array'] else 'QF_BV') + s0.sexpr() + '\n(check-sat)\n(get-model)\n'
-        STATS['cvc5_calls'] += 1
-        st, out = run_cvc5(smt2, min(left, 60), ['--solve-bv-as-int=sum'] if not feats['array'] else ['--solve-bv-as-int=sum'])
-        info['cvc5'] = st
-        if st == 'unsat':
-            STATS['cvc5'] += 1; info['solver'] = 'cvc5 --solve-bv-as-int=sum'
-            return 'unsat', None, info
-        if st == 'sat':
-            # rebuild a z3 model: fix the scalar constants to cvc5's values and let z3 confirm
-            vals = dict(re.findall(r'\(define-fun\s+(\S+)\s+\(\)\s+\(_ BitVec \d+\)\s+(#[xb][0-9a-fA-F]+)\)', out))
-            s2 = z3.Solver(); s2.set('timeout', 20000); s2.add(*assertions)
-            consts = {}
-            def collect(e, seen=set()):
-                todo = [e]
-                while todo:
-                    x = todo.pop()
-                    if x.get_id() in seen: continue
-                    seen.add(x.get_id())
-                    if z3.is_const(x) and x.decl().kind() == z3.Z3_OP_UNINTERPRETED and z3.is_bv(x): consts[str(x)] = x
-                    todo.extend(x.children())
-            for a in assertions: collect(a)
-            for nm, v in vals.items():
-                nm = nm.strip('|')
-                if nm in consts:
-                    c = consts[nm]
-                    iv = int(v[2:], 16) if v[1] == 'x' else int(v[2:], 2)
-                    s2.add(c == z3.BitVecVal(iv, c.size()))
-            r2 = s2.check()
-            if r2 == z3.sat:
-                STATS['cvc5'] += 1; info['solver'] = 'cvc5 model confirmed by z3'
-                return 'sat', s2.model(), info
-            info['cvc5_model_check'] = str(r2)
-    left = timeout_s - (time.time() - t0)
-    if left > 2:
+    if r != z3.unknown: return str(r), (sol.model() if r == z3.sat else None), info
+    if not use_cvc5:
+        info['reason'] = sol.reason_unknown(); return 'unknown', None, info
+    # concurrent phase
+    s0 = z3.Solver(); s0.add(*assertions)
+    smt2 = '(set-logic %s)\n(set-option :produce-models true)\n' % ('QF_ABV' if feats['array'] else 'QF_BV') + s0.sexpr() + '\n(check-sat)\n(get-model)\n'
+    wd = os.environ.get('VERIF_WORK', '/verif/.work')
+    fd, path = tempfile.mkstemp(suffix='.smt2', dir=wd if os.path.isdir(wd) else None); os.write(fd, smt2.encode()); os.close(fd)
+    left = max(2.0, timeout_s - (time.time() - t0))
+    proc = subprocess.Popen([CVC5, '--tlimit=%d' % int(left * 1000), '--solve-bv-as-int=sum', path], stdout=subprocess.PIPE, stderr=subprocess.PIPE, text=True)
+    STATS['cvc5_calls'] += 1
+    import threading
+    done = {}
+    def watch():
+        try:
+            out, err = proc.communicate()
+        except Exception:
+            return
+        done['out'] = (out or '') + (err or '')
+        first = done['out'].strip().split('\n')[0].strip() if done['out'].strip() else ''
+        errs = [l for l in done['out'].split('\n') if ('(error' in l or l.lower().startswith('error')) and 'Cannot get model unless' not in l]
+        if not errs and first in ('sat', 'unsat') and not done.get('z3done'):
+            done['verdict'] = first
+            try: z3.main_ctx().interrupt()      # cvc5 decided first: stop z3's (single, uninterrupted) run
+            except Exception: pass
+    th = threading.Thread(target=watch, daemon=True); th.start()
+    try:
+        left = max(1.0, timeout_s - (time.time() - t0))
         sol.set('timeout', int(left * 1000))
-        r = sol.check()
+        try:
+            r = sol.check()
+        except z3.Z3Exception:
+            r = z3.unknown
+        done['z3done'] = True
         if r != z3.unknown: return str(r), (sol.model() if r == z3.sat else None), info
-        info['reason'] = sol.reason_unknown()
-    return 'unknown', None, info
+        th.join(timeout=max(0.0, timeout_s - (time.time() - t0)) + 1)
+        v = done.get('verdict'); info['cvc5'] = v or 'unknown'
+        if v == 'unsat':
+            STATS['cvc5'] += 1; info['solver'] = 'cvc5 --solve-bv-as-int=sum'; return 'unsat', None, info
+        if v == 'sat':
+            m = _z3model_from_cvc5(assertions, done['out'])
+            if m is not None:
+                STATS['cvc5'] += 1; info['solver'] = 'cvc5 model confirmed by z3'; return 'sat', m, info
+        info['reason'] = 'timeout'
+        return 'unknown', None, info
+    finally:
+        if proc.poll() is None: proc.kill()
+        try: proc.wait(timeout=5)
+        except Exception: pass
+        try: os.unlink(path)
+        except OSError: pass
